@@ -578,7 +578,8 @@ Inductive effect :=
 | ESurvey (survey_time reply_after : N)            (* a response sent reply_after ms after the survey *)
 | ERetry (retry_time wait : N)                     (* did the peer see a second copy within `wait` *)
 | EResize (p : proto) (o : optid) (full : bool) (newlen : N)
-| EZeroQ (p : proto) (o : optid).
+| EZeroQ (p : proto) (o : optid)
+| EOrigin (sets : list bool).                      (* WEBSOCKET-CHECKORIGIN set to these values in turn, then an upgrade with a foreign Origin *)
 
 (* what the PROPERTY requires to be observed *)
 Definition effect_expected (e : effect) : string :=
@@ -589,6 +590,7 @@ Definition effect_expected (e : effect) : string :=
   | ERetry rt w => if retry_due rt w then "retried" else "noretry"
   | EResize _ _ _ _ => "kept"
   | EZeroQ _ _ => "works"
+  | EOrigin sets => if last sets true then "refused" else "accepted"   (* the value in force is the last one set; default: check *)
   end.
 Definition check_effect (c : effect * string) : bool :=
   let '(e, r) := c in String.eqb r (effect_expected e).
